@@ -66,6 +66,7 @@ def run(fb, rep, tier):
     c4_states(fb, rep)
     c5_ep_tables(fb, rep)
     c6_parallel_lists(fb, rep)
+    c7_repetition_scan(fb, rep)
 
 
 def c6_parallel_lists(fb, rep):
@@ -377,3 +378,162 @@ def c4_states(fb, rep):
         need = {'WHITE_MATE', 'BLACK_MATE', 'WHITE_STALEMATE', 'BLACK_STALEMATE', 'DRAW_NO_MATE'}
         rep.ob(clause, 'K10 exhaustiveness', 'getGameState can report mate, stalemate and dead material for both sides', need <= returned, gs.where,
                'states returned: %s' % sorted(returned), gs.sname)
+
+
+# ----------------------------------------------------------------------------- .7
+
+def c7_repetition_scan(fb, rep):
+    """K12 the index set of the repetition scan.  The current position can only equal an earlier one with the same side to
+    move that is at least 4 plies back and not older than the last irreversible move, i.e. the entries
+    size-4, size-6, ... >= size - halfMoveClock of the hash list.  The scan must visit all of them (a superset is only
+    slower), stay inside the list, compare the position's own key with the visited entry, and claim the draw on the
+    first hit inside the search tree or on the second hit overall.  The index arithmetic is evaluated for every list
+    length 0..16 and clock 0..20 from the loop's own init / bound / step expressions."""
+    clause = 'C11.7'
+    f = fb.find1('Search::canClaimDrawRep')
+    if rep.need(clause, f, 'Search::canClaimDrawRep') is None:
+        return
+    params = [p_.get('id') for p_ in f.d.get('params', [])]
+    if len(params) < 4:
+        rep.broken(clause, 'canClaimDrawRep no longer has (pos, list, size, firstNew) parameters')
+        return
+    P_POS, P_LIST, P_SIZE, P_NEW = params[:4]
+    decls = {v['id']: v for _, _, e in f.events() if e.get('k') == 'decl' for v in e.get('vars', [])}
+    hdr = [(bid, blk) for bid, blk in f.blocks.items() if (blk.get('term') or {}).get('c') == 'ForStmt' and bid not in f.dead]
+    if len(hdr) != 1:
+        rep.broken(clause, 'expected one scan loop in canClaimDrawRep, found %d' % len(hdr))
+        return
+    hb, hblk = hdr[0]
+    cond = _strip7(hblk['term'].get('cond'))
+    if not (isinstance(cond, dict) and cond.get('k') == 'bin' and cond.get('op') in ('>=', '>') and isinstance(_strip7(cond.get('l')), dict) and _strip7(cond['l']).get('k') == 'var'):
+        rep.broken(clause, 'scan loop condition is not `i >= bound` / `i > bound`: ' + show(cond, 80))
+        return
+    ivar = _strip7(cond['l'])['id']
+    steps = []
+    for b, i, e in f.events():
+        if e.get('k') == 'asg' and isinstance(e.get('l'), dict) and e['l'].get('id') == ivar and e.get('op') in ('-=',):
+            steps.append((_strip7(e.get('r')) or {}).get('cv'))
+        if e.get('k') == 'incdec' and isinstance(_strip7(e.get('e')), dict) and _strip7(e['e']).get('id') == ivar:
+            steps.append(1 if e.get('op') == '--' else None)
+    if len(steps) != 1 or steps[0] is None or ivar not in decls or decls[ivar].get('init') is None:
+        rep.broken(clause, 'scan variable is not initialised once and decremented once by a constant: steps %s' % steps)
+        return
+    step = steps[0]
+
+    class Unk(Exception):
+        pass
+
+    def ev(t, env, depth=0):
+        t = _strip7(t)
+        if not isinstance(t, dict) or depth > 8:
+            raise Unk(show(t, 60))
+        if 'cv' in t and t.get('k') in ('int',):
+            return t['cv']
+        if t.get('k') == 'var':
+            if t.get('id') == P_SIZE:
+                return env['size']
+            if t.get('id') == P_NEW:
+                return env['new']
+            if t.get('id') in env:
+                return env[t['id']]
+            d = decls.get(t.get('id'))
+            if d is not None and d.get('init') is not None and t.get('id') != ivar:
+                return ev(d['init'], env, depth + 1)
+            raise Unk(show(t, 60))
+        if t.get('k') == 'call':
+            n = cname(t)
+            if n.endswith('::getHalfMoveClock'):
+                return env['clock']
+            if n in ('std::max', 'std::min') and len(t.get('args', [])) == 2:
+                a, b_ = ev(t['args'][0], env, depth + 1), ev(t['args'][1], env, depth + 1)
+                return max(a, b_) if n == 'std::max' else min(a, b_)
+            raise Unk(show(t, 60))
+        if t.get('k') == 'bin' and t.get('op') in ('+', '-', '*', '>=', '>', '<', '<=', '==', '!=', '&&', '||'):
+            a = ev(t.get('l'), env, depth + 1)
+            if t['op'] == '&&' and not a:
+                return 0
+            if t['op'] == '||' and a:
+                return 1
+            b_ = ev(t.get('r'), env, depth + 1)
+            return {'+': a + b_, '-': a - b_, '*': a * b_, '>=': int(a >= b_), '>': int(a > b_), '<': int(a < b_), '<=': int(a <= b_),
+                    '==': int(a == b_), '!=': int(a != b_), '&&': int(bool(a) and bool(b_)), '||': int(bool(a) or bool(b_))}[t['op']]
+        if t.get('k') == 'cond':
+            return ev(t.get('t'), env, depth + 1) if ev(t.get('c'), env, depth + 1) else ev(t.get('f'), env, depth + 1)
+        raise Unk(show(t, 60))
+    missing, outside = [], []
+    try:
+        for size in range(0, 17):
+            for clock in range(0, 21):
+                env = {'size': size, 'clock': clock, 'new': 0}
+                i = ev(decls[ivar]['init'], env)
+                visited = []
+                n = 0
+                while n < 64:
+                    env[ivar] = i
+                    if not ev(cond, env):
+                        break
+                    visited.append(i)
+                    i -= step
+                    n += 1
+                lo = max(0, size - clock)
+                required = [k for k in range(size - 4, lo - 1, -2)]
+                for k in required:
+                    if k not in visited and len(missing) < 3:
+                        missing.append((size, clock, k))
+                for k in visited:
+                    if not (0 <= k < size) and len(outside) < 3:
+                        outside.append((size, clock, k))
+    except Unk as ex:
+        rep.broken(clause, 'scan index arithmetic not evaluable: %s' % ex)
+        return
+    rep.ob(clause, 'K12 scan completeness', 'canClaimDrawRep visits every entry that can repeat the position (same side to move, >= 4 plies back, not older than the half-move clock)',
+           not missing, f.where, 'init %s, bound %s, step %s; first missing (size, clock, index): %s' % (show(decls[ivar]['init'], 40), show(cond, 40), step, missing), f.sname)
+    rep.ob(clause, 'K12 index bound', 'canClaimDrawRep reads the hash list only inside [0, size)', not outside, f.where,
+           'first outside (size, clock, index): %s' % outside, f.sname)
+    # the comparison: own key against the visited entry
+    cmps = []
+    for bid, blk in f.blocks.items():
+        c = _strip7((blk.get('term') or {}).get('cond'))
+        if isinstance(c, dict) and c.get('k') == 'bin' and c.get('op') == '==' and (blk.get('term') or {}).get('c') == 'IfStmt':
+            sides = [_strip7(c.get('l')), _strip7(c.get('r'))]
+            key = [x for x in sides if isinstance(x, dict) and x.get('k') == 'call' and cname(x).endswith('::zobristHash') and (_strip7(x.get('recv')) or {}).get('id') == P_POS]
+            ent = [x for x in sides if isinstance(x, dict) and (x.get('k') == 'idx' or (x.get('k') == 'call' and x.get('op') == '[]'))]
+            if key and ent:
+                e0 = ent[0]
+                base = _strip7(e0.get('b') if e0.get('k') == 'idx' else e0.get('recv'))
+                idx = _strip7(e0.get('i') if e0.get('k') == 'idx' else (e0.get('args') or [None])[0])
+                cmps.append((bid, isinstance(base, dict) and base.get('id') == P_LIST and isinstance(idx, dict) and idx.get('id') == ivar))
+    rep.ob(clause, 'K15 provenance', 'canClaimDrawRep compares the position\'s own hash key with the visited list entry', len(cmps) == 1 and cmps[0][1], f.where,
+           '%d comparison(s)' % len(cmps), f.sname)
+    if len(cmps) != 1:
+        return
+    # the claim: first hit inside the tree, second hit overall
+    mb = f.blocks[cmps[0][0]]['succ'][0]
+    counters = [(_strip7(e.get('e')) or {}).get('id') for e in f.blocks[mb]['ev'] if e.get('k') == 'incdec' and e.get('op') == '++']
+    ifs = [(bid, blk) for bid, blk in f.blocks.items() if (blk.get('term') or {}).get('c') == 'IfStmt' and bid != cmps[0][0] and
+           (bid == mb or mb in f.dominators().get(bid, set()))]
+    ok = False
+    detail = 'counter(s) %s, claim test(s) %d' % (counters, len(ifs))
+    if len(counters) == 1 and len(ifs) == 1 and counters[0] in decls and (_strip7(decls[counters[0]].get('init')) or {}).get('cv') == 0:
+        claim = ifs[0][1]['term']['cond']
+        tgt = f.blocks[ifs[0][1]['succ'][0]]
+        returns_true = any(e.get('k') == 'ret' and (_strip7(e.get('e')) or {}).get('cv') == 1 for e in tgt['ev'])
+        bad = []
+        try:
+            for iv in range(0, 5):
+                for new in range(0, 5):
+                    for reps in range(1, 4):
+                        env = {'size': 8, 'clock': 8, 'new': new, ivar: iv, counters[0]: reps}
+                        if bool(ev(claim, env)) != ((iv >= new) or (reps >= 2)):
+                            bad.append((iv, new, reps))
+            ok = returns_true and not bad
+            detail = 'claim %s; disagreements with (i >= firstNew || hits >= 2) at (i, firstNew, hits): %s' % (show(claim, 60), bad[:3])
+        except Unk as ex:
+            detail = 'claim condition not evaluable: %s' % ex
+    rep.ob(clause, 'K4 claim rule', 'canClaimDrawRep claims the draw on the first repetition inside the search tree or the second repetition overall', ok, f.where, detail, f.sname)
+
+
+def _strip7(t):
+    while isinstance(t, dict) and t.get('k') == 'cast':
+        t = t.get('e')
+    return t
